@@ -97,6 +97,23 @@ def nested_param_edit(rng, spec):
             inner["param"] = new
             return {f"{k}__param": new}, spec2
         return None
+    # structural hyper-parameters (changed in the direction that keeps every constraint satisfied)
+    struct = [k for k in ("min_segment_length", "max_interval_length", "max_segment_length", "growth_factor")
+              if isinstance(kw.get(k), (int, float)) and not isinstance(kw.get(k), bool)]
+    if struct and rng.random() < 0.4:
+        k = struct[int(rng.integers(len(struct)))]
+        if k == "min_segment_length":
+            if kw[k] <= 2:
+                return None
+            new = int(max(2, kw[k] - int(rng.integers(1, 3))))
+        elif k == "growth_factor":
+            new = float([1.2, 1.7, 2.0][int(rng.integers(3))])
+        else:
+            new = int(kw[k] + int(rng.integers(2, 15)))
+        if new == kw[k]:
+            return None
+        kw[k] = new
+        return {k: new}, spec2
     if flat:
         k = flat[int(rng.integers(len(flat)))]
         new = float(rng.choice([0.05, 0.3, 0.7, 1.5])) if k.endswith("_scale") else float(rng.choice([0.05, 0.3]))
